@@ -3,7 +3,7 @@ import ast
 
 from ..model import (AnalysisError, FUNC_TYPES, U, call_attr, call_name, dotted, enclosing, enclosing_function, guard_texts, guards_ex,
                      short, walk_body, walk_local, ancestors, parent, const_str, kwarg)
-from ..util import params, find_calls, assigns_to, trace, stmt_of, has_exit, syn_dominates
+from ..util import params, find_calls, assigns_to, trace, stmt_of, has_exit, syn_dominates, line_loop, some_truthy
 from ..cfg import handler_names, is_catch_all
 from . import c06
 
@@ -102,19 +102,26 @@ def r2_union_walk(cx):
     inner = inner[0]
     c = params(inner)[0]
     acc = params(inner)[1] if len(params(inner)) > 1 else "filters"
-    # stop conditions
+    # stop conditions: every early "return filters" before the merge; a disjunction counts as one stop per disjunct
     stops = [s for s in inner.body if isinstance(s, ast.If) and s.body and isinstance(s.body[-1], ast.Return)]
-    texts = set(U(s.test).replace("(%s" % c, "(c").replace("%s." % c, "c.") if c != "c" else U(s.test) for s in stops)
-    extra = texts - STOP_CONDITIONS
+
+    def _norm(e):
+        t = U(e)
+        if c != "c":
+            import re as _re
+            t = _re.sub(r"\b%s\b" % _re.escape(c), "c", t)
+        return t
     for s in stops:
-        t = U(s.test)
-        if t in STOP_CONDITIONS:
-            cx.ok(s, "stop condition of the walk is one of the three documented ones", construct="if %s: return" % t)
-        elif " in seen" in t or " in visited" in t:
-            cx.ok(s, "cycle guard", construct="if %s: return" % t)
-        else:
-            cx.bad(s, "the walk over dependents stops only for non-filterable, disabled or non-datasource components; an extra stop condition drops registered filters from the union",
-                   construct="if %s: return" % t)
+        disj = s.test.values if isinstance(s.test, ast.BoolOp) and isinstance(s.test.op, ast.Or) else [s.test]
+        for dj in disj:
+            t = _norm(dj)
+            if t in STOP_CONDITIONS:
+                cx.ok(s, "stop condition of the walk is one of the three documented ones", construct="if %s: return" % t)
+            elif " in seen" in t or " in visited" in t:
+                cx.ok(s, "cycle guard", construct="if %s: return" % t)
+            else:
+                cx.bad(s, "the walk over dependents stops only for non-filterable, disabled or non-datasource components; an extra stop condition drops registered filters from the union",
+                       construct="if %s: return" % t)
     upd = [x for x in find_calls(inner.body, attr="update") if U(x.func.value) == acc and x.args and U(x.args[0]) == "FILTERS[%s]" % c]
     if not upd:
         cx.bad(inner, "the component's own filters are added to the result", construct="(no filters.update(FILTERS[c]))")
@@ -156,8 +163,10 @@ def r2_union_walk(cx):
         fn = inn[0]
         comp = params(fn)[0]
         st = [x for x in find_calls(fn.body, attr="update") if U(x.func.value) == "FILTERS[%s]" % comp]
-        pd = [a for a in walk_body(fn.body) if isinstance(a, ast.Assign) and isinstance(a.value, ast.Call) and call_name(a.value) == "dict" and a.value.args and isinstance(a.value.args[0], (ast.GeneratorExp, ast.ListComp))]
-        ok = len(st) == 1 and bool(pd) and not pd[0].value.args[0].generators[0].ifs and not [1 for e, p_, o in guards_ex(st[0]) if o != 'exit-raise']
+        pd = [a for a in walk_body(fn.body) if isinstance(a, ast.Assign) and isinstance(a.value, ast.Call) and call_name(a.value) == "dict" and a.value.args and isinstance(a.value.args[0], (ast.GeneratorExp, ast.ListComp))
+              and not a.value.args[0].generators[0].ifs]
+        pd += [a for a in walk_body(fn.body) if isinstance(a, ast.Assign) and isinstance(a.value, ast.Call) and call_name(a.value) == "dict.fromkeys" and len(a.value.args) == 2]
+        ok = len(st) == 1 and bool(pd) and not [1 for e, p_, o in guards_ex(st[0]) if o != 'exit-raise']
         cx.require(ok, st[0] if st else fn, "every given pattern is stored under FILTERS[component] (merged with the existing ones)", construct=short(st[0]) if st else "(no FILTERS[comp].update)")
 
 
@@ -331,27 +340,26 @@ def r8_bottom_up(cx):
         cx.unknown(fc, "no line loop")
         return
     lp = loops[0]
-    it = U(lp.iter)
-    desc = it in ("range(len(%s) - 1, -1, -1)" % lines, "reversed(range(len(%s)))" % lines)
-    asc = it in ("range(len(%s))" % lines,)
-    idx = U(lp.target)
+    order, cur = line_loop(lp, lines)
     apps = [x for x in find_calls(lp.body, attr="append")]
-    ok_app = len(apps) == 1 and U(apps[0].args[0]) == "%s[%s]" % (lines, idx)
+    ok_app = len(apps) == 1 and cur is not None and U(apps[0].args[0]) == cur
     cx.require(ok_app, apps[0] if apps else lp, "a kept line is the original line, appended once", construct=short(apps[0]) if apps else "(no append)")
     if apps:
         inner = enclosing(apps[0], ast.For)
         one = inner is lp or any(isinstance(s, ast.Break) and syn_dominates(stmt_of(apps[0]), s) for s in walk_body(inner.body))
         cx.require(one, apps[0], "at most one append per input line (the key loop is left after the first matching key)")
         g = guard_texts(apps[0], stop=lp)
-        cx.require(any(" in %s[%s]" % (lines, idx) in t and p for t, p in g), apps[0], "a line is kept only if it contains a filter string")
+        cx.require(cur is not None and any((" in %s" % cur) in t and p for t, p in g), apps[0], "a line is kept only if it contains a filter string")
     revs = [x for x in find_calls(fc.body, attr="reverse")]
     rets = [r for r in fc.body if isinstance(r, ast.Return)]
-    if desc:
+    if order == "desc":
         ok = len(revs) == 1 and enclosing(revs[0], (ast.For, ast.If)) is None and bool(rets) and U(rets[0].value) == U(revs[0].func.value) and syn_dominates(stmt_of(revs[0]), rets[0])
+        if not ok and bool(rets) and apps:
+            ok = not revs and U(rets[0].value) in ("%s[::-1]" % U(apps[0].func.value), "list(reversed(%s))" % U(apps[0].func.value))
         cx.require(ok, revs[0] if revs else fc, "lines are scanned bottom-up (the last matches use the budget first) and the result is reversed exactly once before it is returned",
-                   construct="for %s in %s ... result.reverse(); return result" % (idx, it))
-    elif asc:
-        cx.bad(lp, "lines are scanned bottom-up so that the last line matching each filter is always within the budget", construct="for %s in %s" % (idx, it))
+                   construct="for %s in %s ... reverse once; return" % (U(lp.target), U(lp.iter)))
+    elif order == "asc":
+        cx.bad(lp, "lines are scanned bottom-up so that the last line matching each filter is always within the budget", construct="for %s in %s" % (U(lp.target), U(lp.iter)))
     else:
         cx.unknown(lp, "iteration order of the line loop not recognised")
 
@@ -363,14 +371,14 @@ def r8b_cleaner_bottom_up(cx):
     cm = cx.repo.module("insights.cleaner")
     cc = cm.func("Cleaner.clean_content", "C07.R8")
     lines = params(cc)[1]
-    loops = [s for s in cc.body if isinstance(s, ast.For) and "range(" in U(s.iter)]
+    loops = [s for s in cc.body if isinstance(s, ast.For) and line_loop(s, lines)[0] is not None]
     if not loops:
-        cx.unknown(cc, "no index loop over the lines in clean_content")
+        cx.unknown(cc, "no loop over the lines in clean_content")
         return
-    it = U(loops[0].iter)
-    cx.require(it in ("range(len(%s) - 1, -1, -1)" % lines, "reversed(range(len(%s)))" % lines), loops[0],
+    order, cur = line_loop(loops[0], lines)
+    cx.require(order == "desc", loops[0],
                "clean_content feeds lines to the allow-list stage bottom-up (the last line matching each filter is within the budget)",
-               construct="for %s in %s" % (U(loops[0].target), it))
+               construct="for %s in %s" % (U(loops[0].target), U(loops[0].iter)))
 
 
 def run(cx):
